@@ -618,6 +618,10 @@ func Gen(seed int64, index int, o GenOpts) *Case {
 				if sp.Kind == AV1 && chance(0.3) {
 					vo.OBUNoSize = true
 				}
+				if sp.Kind == VP9 && !ra && (n*7+index)%5 == 0 {
+					vo.VP9ShowExisting = true
+					c.Features["vp9-show-existing"] = true
+				}
 				if sp.Kind == H264 && chance(0.1) {
 					vo.PrependAUD = true
 				}
